@@ -38,6 +38,8 @@ def gen_tree(rng, depth=0):
 
 def check(tree, script, answer):
     """property-level judgement of the implementation's answers to a script"""
+    if answer.startswith("<"):
+        return "the stream functions: %s" % answer[:200]
     got = answer.split()
     if len(got) != len(script):
         return "answered %d of %d calls" % (len(got), len(script))
@@ -140,7 +142,22 @@ def run(ctx):
     known = [k for k in common.load_known("C03") if k.get("status") == "known"]
     for k in known:
         cases.append(parse_op(k["witness"]))
-    ops = ["m.run %s # %s" % (p_strm.render(t), s) for t, s in cases]
+    # a stream goes on as its clone at any point (evfilt and evmrul clone their constituents; `c' in the script), or is the
+    # clone of a stream nobody has looked at (`C' before the tree): the calls and answers are those of the stream itself
+    ops = []
+    nclones = 0
+    plain = ["m.run %s # %s" % (p_strm.render(t), s) for t, s in cases]
+    for ci, (t, s) in enumerate(cases):
+        z = rng.random() if ci < n else 1.0        # (corpus lines and recorded witnesses as they are)
+        if z < 0.25:
+            k = rng.randint(0, len(s))
+            s = s[:k] + "c" + s[k:]
+            if rng.random() < 0.3:
+                k = rng.randint(0, len(s))
+                s = s[:k] + "c" + s[k:]
+            nclones += 1
+        ops.append("m.run %s%s # %s" % ("C " if 0.25 <= z < 0.35 else "", p_strm.render(t), s))
+        nclones += 0.25 <= z < 0.35
     impl, st, err = ctx.impl(exe, ops)
     model = ctx.model(ops)
     fails = []
@@ -158,7 +175,7 @@ def run(ctx):
             fails.append((i, why))
     for k in known:
         # the witness is replayed on every run; the finding is reported while it still fails
-        j = ops.index("m.run %s # %s" % (p_strm.render(parse_op(k["witness"])[0]), parse_op(k["witness"])[1]))
+        j = plain.index("m.run %s # %s" % (p_strm.render(parse_op(k["witness"])[0]), parse_op(k["witness"])[1]))
         if any(i == j for i, _ in in_class):
             ctx.known(k["what"])
     ctx.cov["in_known_finding_class"] = nclass
@@ -174,7 +191,7 @@ def run(ctx):
         alg[len(alg)] = op
         fails.append((-len(alg), why))
     ctx.cov.update({
-        "calendars_through_whole_parser": an, "occurrences_compared_with_union": aocc, "calendar_shapes": ahist,
+        "scripts_with_clones": int(nclones), "calendars_through_whole_parser": an, "occurrences_compared_with_union": aocc, "calendar_shapes": ahist,
         "evaluations": len(ops) + an,
         "distinct_nontrivial": len({o for o, (t, s) in zip(ops, cases) if sum(len(l) for l in p_strm.leaves(t)) >= 2}),
         "traces_validated_against_impl": len(ops) - len(corr),
